@@ -89,6 +89,8 @@ func (p *FloatingIPPlugin) getSubnet(pod *corev1.Pod) (sets.String, error) {
 		return nil, fmt.Errorf("failed to query by key %s: %v", keyObj.KeyInDB, err)
 	}
 	allocatedSubnets := sets.NewString()
+	// hasAllocatedIP tells that allocatedSubnets restricts the result, an empty intersection offers no node at all
+	hasAllocatedIP := false
 	if len(ipranges) == 0 {
 		if len(ipInfos) > 0 {
 			glog.V(3).Infof("%s already have an allocated ip %s in subnets %v", keyObj.KeyInDB,
@@ -104,6 +106,7 @@ func (p *FloatingIPPlugin) getSubnet(pod *corev1.Pod) (sets.String, error) {
 				unallocatedIPRange = append(unallocatedIPRange, ipranges[i])
 			} else {
 				ips = append(ips, ipInfos[i].IP.String())
+				hasAllocatedIP = true
 				// an empty intersection so far means no node can route all the ips seen, it must not be filled again
 				if first {
 					first = false
@@ -143,7 +146,7 @@ func (p *FloatingIPPlugin) getSubnet(pod *corev1.Pod) (sets.String, error) {
 	if err != nil {
 		return nil, err
 	}
-	if allocatedSubnets.Len() > 0 {
+	if hasAllocatedIP {
 		subnetSet = subnetSet.Intersection(allocatedSubnets)
 	}
 	if (reserve || isPoolSizeDefined) && subnetSet.Len() > 0 {
